@@ -5,6 +5,7 @@ import GqlProofs.Grammar.PrintSchema
 import GqlProofs.Parser.SoundSchemaTop
 import GqlProofs.Parser.FwdSchemaTop
 import GqlProofs.Parser.RetSchema
+import GqlProofs.Grammar.Complete
 /-
   C06 — the schema parser accepts exactly the type-system grammar, faithfully.
 
@@ -460,6 +461,27 @@ theorem C06_parse_print_directive_definition {dk : Bytes → Kind} (hdk : ∀ d,
     Fwd (parseDirectiveDefinition n d.desc) a (fun y a' => y.erasePos = d.erasePos ∧ a'.σ = σ') :=
   fwd_directiveDefinition hdk d hok n a σ' hs hfol
 
+/-! ### the recogniser decides the type-system grammar -/
+
+theorem C06_recognises_complete (ts : List Tok) (h : Derivable gql .typeSystemDocument ts) : isTypeSystem ts = true :=
+  recognises_complete _ ts h
+
+theorem C06_recognises_iff (ts : List Tok) : isTypeSystem ts = true ↔ Derivable gql .typeSystemDocument ts :=
+  recognises_iff _ ts
+
+/-- `C06_parse_sound` on the executable side of the check: the recogniser accepts the token
+    sequence of every accepted non-empty schema document (with no enum value `true`/`false`/`null`)
+    and returns a canonical form of it (that it is `printSchema doc` needs uniqueness of canonical
+    forms for this grammar — not proved) -/
+theorem C06_parse_sound_recognises (inp : Bytes) (doc : SchemaDoc) (h : parseSchema 0 inp = .ok doc)
+    (hne : doc.schema ≠ [] ∨ doc.schemaExt ≠ [] ∨ doc.directives ≠ [] ∨ doc.definitions ≠ [] ∨ doc.extensions ≠ [])
+    (henum : (∀ d ∈ doc.definitions, EnumOK d) ∧ (∀ d ∈ doc.extensions, EnumOK d)) :
+    ∃ ts, tokensOf inp = some ts ∧ isTypeSystem ts = true ∧
+      ∃ out, canonical gql .typeSystemDocument ts = some out ∧ Derives gql (.nt .typeSystemDocument) ts out := by
+  obtain ⟨ts, h1, h2, _, _⟩ := C06_parse_sound inp doc h hne henum
+  obtain ⟨out, ho⟩ := canonical_complete _ ts h2
+  exact ⟨ts, h1, C06_recognises_complete ts h2, out, ho, C06_canonical_sound ts out ho⟩
+
 #print axioms C06_print_in_grammar
 #print axioms C06_print_canonical
 #print axioms C06_recognise_sound
@@ -497,3 +519,5 @@ theorem C06_parse_print_directive_definition {dk : Bytes → Kind} (hdk : ∀ d,
 #print axioms C06_parse_print_directive_definition
 #print axioms C06_parse_printable
 #print axioms C06_parse_print_parse
+#print axioms C06_recognises_iff
+#print axioms C06_parse_sound_recognises
